@@ -354,7 +354,7 @@ func TestC06(t *testing.T) {
 		if msg != "" {
 			failCase(t, "C06", c, "%s", msg)
 		}
-		if rec.WantSample() && evid.Mix(seed, uint64(c.Code))%9000 == 0 {
+		if rec.WantSample() && (evid.Mix(seed, uint64(c.Code))%9000 == 0 || c.Code == 1000) {
 			rec.Sample(c)
 		}
 	}
